@@ -7,7 +7,8 @@ def main():
     import loki
     lp = Path(loki.__file__).resolve()
     print('loki ->', lp)
-    ok &= str(lp).startswith('/repo/')
+    import os
+    ok &= str(lp).startswith(os.environ.get('VERIF_REPO', '/repo').rstrip('/') + '/')
     for tool in ('gfortran', 'gcc'):
         p = shutil.which(tool)
         print(tool, '->', p)
